@@ -657,7 +657,11 @@ class Lis:
         while True:
             k = rng.random()
             base = rng.choice(list(known))
-            if k < 0.3:
+            if k < 0.1:
+                # unit bytes as they come out of old files: degree / micro / ohm signs of some 8-bit character set, any byte at all
+                cand = rng.choice([b'\xb0F  ', b'\xb0C  ', b'\xb5S  ', b'OHM\xea', b'\xf8   ', b'DEG\xb0', bytes(rng.getrandbits(8) | 0x80 for _ in range(4)),
+                                   bytes(rng.getrandbits(8) for _ in range(4)), b'FE\xffT', b'\x80\x00\x00\x00'])
+            elif k < 0.3:
                 cand = bytes(rng.choice(b'ABCDEFGHIJKLMNOPQRSTUVWXYZ0123456789/-. ') for _ in range(4))
             elif k < 0.5:
                 cand = base.lower()
